@@ -19,6 +19,8 @@ fn probes() -> Vec<ProbeDef> {
         ProbeDef { id: "5".into(), lines: vec![] },
         // candidates that look like options of `echo`
         ProbeDef { id: "6".into(), lines: vec!["-n".into(), "-e".into(), "-E".into(), "-ne".into(), "-x".into()] },
+        // a candidate of two-digit length and a short one that is a proper prefix of it
+        ProbeDef { id: "7".into(), lines: vec!["abc".into(), "abcdefghijkl".into(), "other".into()] },
     ]
 }
 
@@ -71,6 +73,12 @@ pub fn family(tier: Tier, f: &mut dyn FnMut(G)) {
     f(call(E::Seq(vec![p("4"), lit("t")])));
     f(call(E::Seq(vec![E::Word(vec![lit("s="), p("4")]), lit("t")])));
     f(call(E::Alt(vec![p("4"), lit("spx")])));
+    // lengths of 3 and 12: the longest candidate must be tried first
+    f(call(E::Seq(vec![E::Word(vec![lit("--opt="), p("7")]), lit("t")])));
+    f(call(E::Seq(vec![p("7"), lit("t")])));
+    // two different commands one after the other (a word matching the first one's candidates only)
+    f(call(E::Seq(vec![p("1"), p("2"), lit("t")])));
+    f(call(E::Seq(vec![E::Word(vec![p("1"), lit(".."), p("2")]), lit("t")])));
     // candidates that a careless `echo` would swallow
     f(call(E::Seq(vec![p("6"), lit("t")])));
     f(call(E::Seq(vec![E::Word(vec![lit("o="), p("6")]), lit("t")])));
